@@ -73,6 +73,8 @@ func runC09(c *Ctx) {
 	R.Rule("C09.R2", "push/pop conditions: a push happens only in the StartTag arm, pushes token.Data, on an edge whose path condition implies 'no attribute survived ∧ ¬allowNoAttrs(token.Data)'; a pop happens only in the EndTag arm under flag ∧ token.Data == top of stack; no tag write is reachable after a push or a pop in the same iteration")
 	R.Rule("C09.R3", "every drop has a tabled reason: a StartTag/SelfClosingTag iteration that writes no tag is disallowed, gated, dropped for lack of attributes, or inside skipped content; an EndTag iteration that writes no tag is disallowed, gated, popped, or inside skipped content — the same admission predicate (element table ∨ element pattern) in both arms")
 	R.Rule("C09.R4", "pushes are matchable: the push edge is reached only for elements that can have an end tag (a void-element test on token.Data guards it)")
+	R.Rule("C09.R7", "the start-tag and end-tag arms agree on admission by pattern: matchRegex's match flag is sticky (only ever set to true inside the scan), like the end-tag arm's own scan")
+	matchedIsSticky(c, "C09.R7")
 	R.Rule("C09.R6", "frames, not names: an end tag is matched with the dropped start tag it belongs to — the arm handling start tags consults the top of the pending-close stack, so that same-name elements that are not pushed between a push and its pop can be told apart from the pushed one")
 	R.Rule("C09.R5", "the SelfClosingTag arm never pops; it pushes only what the StartTag arm would push, and only for non-void elements (R2)")
 	R.Assume(TrustGo, TrustTokenizer, "balance over every token sequence depends on the run-time contents of the stack; the rules fix its transitions and the agreement of the two arms")
